@@ -288,3 +288,76 @@ impl LuaIndex for LuaMemberIndex {
         self.owner_members.clear();
     }
 }
+
+#[cfg(feature = "verif-hooks")]
+impl LuaMemberIndex {
+    pub(crate) fn verif_sizes(&self) -> Vec<(&'static str, usize)> {
+        let item_ids = |item: &LuaMemberIndexItem| match item {
+            LuaMemberIndexItem::One(_) => 1,
+            LuaMemberIndexItem::Many(ids) => ids.len(),
+        };
+        vec![
+            ("members", self.members.len()),
+            ("in_filed", self.in_filed.len()),
+            (
+                "in_filed.items",
+                self.in_filed.values().map(|v| v.len()).sum(),
+            ),
+            ("owner_members", self.owner_members.len()),
+            (
+                "owner_members.keys",
+                self.owner_members
+                    .values()
+                    .map(|m| m.get_member_len())
+                    .sum(),
+            ),
+            (
+                "owner_members.ids",
+                self.owner_members
+                    .values()
+                    .map(|m| m.get_member_items().map(item_ids).sum::<usize>())
+                    .sum(),
+            ),
+            ("member_current_owner", self.member_current_owner.len()),
+        ]
+    }
+
+    pub(crate) fn verif_file_refs(&self, file_id: FileId) -> Vec<(&'static str, usize)> {
+        let item_ids = |item: &LuaMemberIndexItem| match item {
+            LuaMemberIndexItem::One(id) => (id.file_id == file_id) as usize,
+            LuaMemberIndexItem::Many(ids) => ids.iter().filter(|id| id.file_id == file_id).count(),
+        };
+        let owner_in_file = |o: &LuaMemberOwner| matches!(o, LuaMemberOwner::Element(e) if e.file_id == file_id);
+        vec![
+            (
+                "members",
+                self.members
+                    .keys()
+                    .filter(|id| id.file_id == file_id)
+                    .count(),
+            ),
+            ("in_filed", self.in_filed.contains_key(&file_id) as usize),
+            (
+                "owner_members.element_owners",
+                self.owner_members
+                    .keys()
+                    .filter(|o| owner_in_file(o))
+                    .count(),
+            ),
+            (
+                "owner_members.ids",
+                self.owner_members
+                    .values()
+                    .map(|m| m.get_member_items().map(item_ids).sum::<usize>())
+                    .sum(),
+            ),
+            (
+                "member_current_owner",
+                self.member_current_owner
+                    .iter()
+                    .filter(|(id, o)| id.file_id == file_id || owner_in_file(o))
+                    .count(),
+            ),
+        ]
+    }
+}
